@@ -10,6 +10,9 @@ VARIABLE napi
 
 MCRoa1 == {<<"p1", "a1">>}
 MCRoa2 == {<<"p1", "a1">>, <<"p2", "a1">>}
+NoAspa == {}
+MCAspa == {<<"a1", "prov:a2">>, <<"a1", "prov:a2+a3">>}
+MCRoaAspa == MCRoa1 \cup MCAspa
 Chain == [c \in Sub |-> IF c = "B" THEN "A" ELSE "B"]
 Flat == [c \in Sub |-> "A"]
 
